@@ -542,6 +542,7 @@ type step =
 | Lookup of nat * n
 | Generate of nat
 | Insert of nat
+| Abort of nat
 
 type 'plan event =
 | Ret of nat * n * 'plan
@@ -556,6 +557,8 @@ val do_generate :
 val evict : nat -> (n * 'a1) list -> n list -> (n * 'a1) list * n list
 
 val do_insert : nat -> nat -> 'a1 sysstate -> 'a1 sysstate * 'a1 event list
+
+val do_abort : nat -> 'a1 sysstate -> 'a1 sysstate * 'a1 event list
 
 val exec :
   (n -> 'a1) -> nat -> step -> 'a1 sysstate -> 'a1 sysstate * 'a1 event list
